@@ -136,7 +136,76 @@ func c02Judge(c *c02Case) string {
 		return fmt.Sprintf("a reconcile at the fixed point issued %d write(s): %v", len(log), log)
 	}
 	_ = context.TODO
+	// progress: the user edits the template once; with a kubelet that makes every pod the controller leaves in place
+	// Running and Ready, finitely many reconciles must bring every pod at or above the partition to the new revision
+	if c.Strategy != "RollingUpdate" {
+		return ""
+	}
+	set.Spec.Template.Spec.Containers[0].Image = "edited"
+	set.Generation++
+	live := map[string]*v1.Pod{}
+	for _, p := range pods {
+		live[p.Name] = p
+	}
+	world := &c02World{live: live}
+	ssc.podControl = world
+	quietRounds := 0
+	for round := 0; round < 40 && quietRounds < 2; round++ {
+		var cur []*v1.Pod
+		for _, p := range world.live {
+			cur = append(cur, p)
+		}
+		world.calls = 0
+		if err := ssc.UpdateStatefulSet(set, cur); err != nil {
+			return fmt.Sprintf("reconcile during the rollout failed: %v", err)
+		}
+		if last != nil {
+			set.Status = *last
+		}
+		for _, p := range world.live { // kubelet progress
+			p.Status.Phase = v1.PodRunning
+			p.Status.Conditions = []v1.PodCondition{{Type: v1.PodReady, Status: v1.ConditionTrue}}
+		}
+		if world.calls == 0 {
+			quietRounds++
+		} else {
+			quietRounds = 0
+		}
+	}
+	if quietRounds < 2 {
+		return "the rollout did not go quiet within 40 reconciles"
+	}
+	for _, o := range helper.GetPodOrdinals(c.Replicas, set).List() {
+		p := world.live[fmt.Sprintf("%s-%d", set.Name, o)]
+		if p == nil {
+			return fmt.Sprintf("after the rollout went quiet desired ordinal %d has no pod", o)
+		}
+		if int32(o) >= c.Partition && p.Spec.Containers[0].Image != "edited" {
+			return fmt.Sprintf("the rollout went quiet but pod %s (ordinal %d >= partition %d) still runs the old template", p.Name, o, c.Partition)
+		}
+	}
 	return ""
+}
+
+// c02World is a pod control that applies creates and deletes to a pod population.
+type c02World struct {
+	live  map[string]*v1.Pod
+	calls int
+}
+
+func (w *c02World) CreateStatefulPod(set *apps.StatefulSet, pod *v1.Pod) error {
+	w.calls++
+	w.live[pod.Name] = pod.DeepCopy()
+	return nil
+}
+func (w *c02World) UpdateStatefulPod(set *apps.StatefulSet, pod *v1.Pod) error {
+	w.calls++
+	return nil
+}
+func (w *c02World) DeleteStatefulPod(set *apps.StatefulSet, pod *v1.Pod) error {
+	w.calls++
+	delete(w.live, pod.Name)
+	return nil
 }
 
 func TestReplayC02(t *testing.T) {
@@ -171,6 +240,6 @@ func TestReplayC02(t *testing.T) {
 		}
 	}
 	if found == 0 {
-		fmt.Printf("NOT-REPRODUCED bounded search: %d settled clusters (replicas x delete slots x policy x strategy/partition x claim templates), one reconcile each\n", tried)
+		fmt.Printf("NOT-REPRODUCED bounded search: %d settled clusters (replicas x delete slots x policy x strategy/partition x claim templates), one reconcile each, then one template edit rolled out to quiescence\n", tried)
 	}
 }
